@@ -75,7 +75,7 @@ prop( 'C03', [ 'W-ATTR', 'D-VALIDATE', 'R-SNAPSHOT', 'D-TYPE', 'T-TYPENAMES', 'T
       not_decided='read-your-writes over request histories, slice index arithmetic, symbolic-name resolution, per-element isolation (value/history dependent).',
       technique='who-may-write analysis via service feasibility on the CFG; AST shape checks; table checks' )
 
-prop( 'C06', [ 'X-SERVICES', 'P-REPLYBIT', 'P-ONE', 'P-PROCEED', 'D-ECHO', 'S-STATUS', 'P-ROUTE', 'E-REPLY', 'T-CONTEXT', 'P-EACH', 'U-NULLADDR', 'R-REENTRANT', 'W-ITERDEL' ],
+prop( 'C06', [ 'X-SERVICES', 'P-REPLYBIT', 'P-ONE', 'P-PROCEED', 'D-ECHO', 'S-STATUS', 'P-ROUTE', 'E-REPLY', 'T-CONTEXT', 'P-EACH', 'U-NULLADDR', 'R-REENTRANT', 'W-ITERDEL', 'P-MATCH' ],
       decides='X-SERVICES: for Object, Message_Router, Connection_Manager and Logix the registered service parsers, the services '
               'request() dispatches and the services produce() encodes agree, and every *_RPY constant is *_REQ | 0x80; '
               'P-REPLYBIT: on every path of every handler to the reply producer the reply bit is set at most once, exactly once on '
@@ -255,7 +255,7 @@ prop( 'C13', [ 'S-COMPLETE', 'P-MATCH', 'P-FRESH', 'P-BUNDLE', 'P-DISCARD', 'P-A
       not_decided='behaviour at each byte offset of a cut - the rules show that every failure kind has a raising/terminating path, not what the kernel delivers.',
       technique='sibling cross-check of drivers (counter feed analysis); dominance on the CFG; guard-shape matching; call-site protection (lexical with/try)' )
 
-prop( 'C15', [ 'B-ROUTE', 'D-REFUSE', 'C-MAIN', 'S-STATUS', 'T-SEGMENTS', 'P-BUNDLE', 'T-ROUTETEXT', 'K-ROUTEKEY', 'W-ASSERT' ],
+prop( 'C15', [ 'B-ROUTE', 'D-REFUSE', 'C-MAIN', 'S-STATUS', 'T-SEGMENTS', 'P-BUNDLE', 'T-ROUTETEXT', 'K-ROUTEKEY', 'W-ASSERT', 'W-CLASSSTATE' ],
       decides='K-ROUTEKEY: the gateway routing table is written under the key function it is read with ( the same format string over device.port_link\'s canonical segment ).  B-ROUTE: the boolean acceptance expression guarding local dispatch in UCMM.request (including its enclosing '
               '`if self.route_path is not None`) is evaluated on every cell of the finite abstract domain - configured personality in '
               '{None, False, 0, [], one-segment list, two-segment list with an address link} x request route path in {absent, empty, equal, '
